@@ -146,7 +146,7 @@ PROPS.update({
         "assumptions": ["after a FAILED exact transfer the stream position is not compared with std (std leaves it unspecified)"],
     },
     "C14": {
-        "modules": ["VmMem.Props.C14"], "theorems": T("C14"),
+        "modules": ["VmMem.Props.C14", "VmMem.Props.C14g"], "theorems": T("C14") + T("C14g"),
         "runs": lambda tier: with_proj(runs_slice(tier, streams=True), {"ops": STREAM_OPS}) + runs_gm(tier, ["mixed"], {"ops": STREAM_OPS}, chk=False),
         "trusted_base": ["the scripted stream of the harness obeys its script"],
         "assumptions": ["scripts are finite; an exhausted script behaves as `full`"],
@@ -207,5 +207,12 @@ PROPS.update({
         "runs": lambda tier: [{"world": "build", "n": 3000 if tier == "quick" else 60000}],
         "trusted_base": ["the kernel's mmap either fails or maps what was asked (model parameter)", "file mapping coherence is kernel behaviour: observed by the run, not proved"],
         "assumptions": ["PARTIAL: the Xen half (flag words, file requirements) is proved over the model; the quick run covers the Unix build"],
+    },
+    "C07": {
+        "modules": ["VmMem.Props.C07"], "theorems": T("C07"),
+        # the observation that matters is completed-ok / completed-err / panic: compare the first token only
+        "runs": lambda tier: runs_slice(tier, streams=True) + runs_gm(tier, ["mixed", "edit"]) + runs_bitmap(tier) + (runs_xen(tier) if tier == "thorough" else []),
+        "trusted_base": ["allocation failure aborts and stack overflow are not modelled", "the constructor invariants (WF layout, bitmap Inv, live root allocation) hold for objects built through the safe API (C09, C10, C15)"],
+        "assumptions": ["documented program-logic panics (array index out of range) are stated separately and exactly (documented_panics); VMM-chosen operands are explicit guards: enlarge overflow, zero-length regions, oversized zero-sized-element buffers"],
     },
 })
